@@ -23,3 +23,47 @@ def known(entry_id):
         if e.get("id") == entry_id:
             return e.get("status") == "known"
     return False
+
+
+def str_eq(a, b):
+    """String equality that avoids CrossHair's SequenceConcatenation.__eq__ (internal error on concatenated symbolic strings)."""
+    n = len(a)
+    if n != len(b):
+        return False
+    return all([ord(a[i]) == ord(b[i]) for i in range(n)])
+
+
+def deep_eq(a, b):
+    """Structural equality of model instances (dataclass ==, but strings compared code point by code point)."""
+    import dataclasses
+
+    if isinstance(a, str) and isinstance(b, str):
+        return str_eq(a, b)
+    if a is None or b is None:
+        return a is None and b is None
+    if dataclasses.is_dataclass(a) and not isinstance(a, type):
+        if type(a) is not type(b):
+            return False
+        for f in dataclasses.fields(a):
+            if f.compare and not deep_eq(getattr(a, f.name), getattr(b, f.name)):
+                return False
+        return True
+    if isinstance(a, (list, tuple)) and not hasattr(a, "_fields"):
+        if type(a) is not type(b) or len(a) != len(b):
+            return False
+        for x, y in zip(a, b):
+            if not deep_eq(x, y):
+                return False
+        return True
+    if isinstance(a, dict):
+        if not isinstance(b, dict) or len(a) != len(b):
+            return False
+        for k in a:
+            if k not in b or not deep_eq(a[k], b[k]):
+                return False
+        return True
+    if isinstance(a, bool) or isinstance(b, bool):
+        return isinstance(a, bool) and isinstance(b, bool) and a == b
+    if type(a) is not type(b) and not (isinstance(a, int) and isinstance(b, int)):
+        return False
+    return a == b
